@@ -11,7 +11,8 @@ import (
 )
 
 // hist <spec> ; <spec> ; ... ;; <op><obj> <op><obj> ...
-// ops: c Check, l Len, e Example, a GetAST, u UsedUserTypes, o OpenAPI, n re-create the object
+// ops: c Check, l Len, e Example, a GetAST, u UsedUserTypes, o OpenAPI, n re-create the object,
+//      r re-create the root alone (no types registered), t register the project's types on it
 // Result: one digest per op, then "stable=1" or "stable=0:<what changed>".
 // Every returned slice/struct is kept together with a deep copy taken at return time and is compared
 // again after every later operation.
@@ -63,13 +64,29 @@ func init() {
 			k := int(op[1] - '0')
 			s := objs[k]
 			r := ""
-			if berr[k] != "" && op[0] != 'n' {
+			if berr[k] != "" && op[0] != 'n' && op[0] != 'r' {
 				r = berr[k]
 			} else {
 				switch op[0] {
 				case 'n':
 					mk(k)
 					r = "new"
+				case 'r':
+					// the root alone (as a tool does that first creates every schema of a project): types follow with 't'
+					p, _ := parseProject(specs[k])
+					projs[k] = p
+					ns, err := p.newRoot()
+					objs[k] = ns
+					berr[k] = ""
+					if err != nil {
+						berr[k] = "build=" + err.Error()
+					}
+					r = "root"
+				case 't':
+					if err := projs[k].addTypes(s); err != nil {
+						berr[k] = "build=" + err.Error()
+					}
+					r = "types"
 				case 'c':
 					r = opCheck(s)
 				case 'l':
